@@ -377,7 +377,7 @@ func (it *Interp) Assert(id string, c *sym.Term) {
 		// current model satisfies c; ask the solver for a violating one
 		it.Solver.Push()
 		it.Solver.Assert(nc)
-		r := it.Solver.Check()
+		r := it.Solver.CheckPatient()
 		switch r {
 		case sym.Unsat:
 			p.discharged++
@@ -403,7 +403,7 @@ func (it *Interp) Assert(id string, c *sym.Term) {
 			// need a model of pc ∧ ¬c
 			it.Solver.Push()
 			it.Solver.Assert(nc)
-			r := it.Solver.Check()
+			r := it.Solver.CheckPatient()
 			switch r {
 			case sym.Unsat:
 				p.discharged++
